@@ -84,6 +84,7 @@ type ContractSet struct {
 	Specs  map[string]*SpecFn
 	SpecOrder []string
 	Lemmas []*Lemma
+	Schema map[string]*SchemaType
 	Files  []string
 }
 
@@ -174,6 +175,16 @@ func (cs *ContractSet) parseFile(path string) error {
 			}
 			cur = &Contract{Name: name, Kind: kw, Loops: map[int]*LoopSpec{}, Tags: tags, File: path, Line: lnos[i], Opts: map[string]string{}}
 			cs.Funcs[name] = cur
+		case "schema":
+			st, err := parseSchemaLine(rest, path, lnos[i])
+			if err != nil {
+				return fail(err)
+			}
+			if cs.Schema == nil {
+				cs.Schema = map[string]*SchemaType{}
+			}
+			cs.Schema[st.Name] = st
+			cur = nil
 		case "spec":
 			sp, err := parseSpec(rest)
 			if err != nil {
